@@ -263,7 +263,7 @@ impl FmtAttribute {
                 (syn::Fields::Unnamed(f), Some(i)) => {
                     f.unnamed.iter().nth(i).map(|f| &f.ty)
                 }
-                (syn::Fields::Named(f), None) => f.named.iter().find_map(|f| {
+                (syn::Fields::Named(f), _) => f.named.iter().find_map(|f| {
                     f.ident
                         .as_ref()
                         .filter(|s| s.unraw() == name)
